@@ -51,10 +51,30 @@ Definition obs_eqb (n : N) (s : st) (r : ret) (o : obs) : bool :=
   && set_eqb pair_eqb (map (fun e => (fst e, mode_code (snd e))) (ipfs s)) (o_daemon o)
   && set_eqb quad_eqb (map (call_obs s) (calls s)) (o_inflight o).
 
+(* RecoverAll visits the listing in Go map order and stops at the first cid that cannot be queued. The harness reports
+   the cids visited before that point (the returned list); the cid it stopped at is not reported, so the check tries
+   every unvisited cid as the next one of the order (the order is an explicit argument of the model: ERecoverAll ord). *)
+Definition step_candidates (n : N) (e : event) (o : obs) : list event :=
+  match e with
+  | ERecoverAll ord =>
+      if N.eqb (o_ret o) 1
+      then map (fun c => ERecoverAll (ord ++ [c])) (filter (fun c => negb (memN c ord)) (nrange n)) ++ [e]
+      else [e]
+  | _ => [e]
+  end.
+Fixpoint try_steps (chk : st -> ret -> bool) (s : st) (cands : list event) : option st :=
+  match cands with
+  | [] => None
+  | e :: r => let '(s', rt) := step s e in if chk s' rt then Some s' else try_steps chk s r
+  end.
 Fixpoint run_check (n : N) (s : st) (l : list (event * obs)) : bool :=
   match l with
   | [] => true
-  | (e, o) :: r => let '(s', rt) := step s e in obs_eqb n s' rt o && run_check n s' r
+  | (e, o) :: r =>
+      match try_steps (fun s' rt => obs_eqb n s' rt o) s (step_candidates n e o) with
+      | Some s' => run_check n s' r
+      | None => false
+      end
   end.
 Definition model_eqb (c : cfg) (l : list (event * obs)) : bool := run_check (ncid_of c) (init_of c) l.
 
